@@ -3,6 +3,7 @@ package main
 import (
 	"context"
 	"errors"
+	"fmt"
 	"strings"
 	"sync"
 	"sync/atomic"
@@ -28,6 +29,11 @@ type recHandler struct {
 func connID(conn *redis.Conn) int {
 	if sc, ok := conn.Conn.(*sconn); ok {
 		return sc.id
+	}
+	// the server may have wrapped the transport (deadlines, buffering, counting): the scripted connection's address names it
+	var id int
+	if _, err := fmt.Sscanf(conn.RemoteAddr().String(), "client-%d", &id); err == nil {
+		return id
 	}
 	return -1
 }
